@@ -132,6 +132,48 @@ func sendOrder(e *Env) {
 		l.ChunkMode = g.Intn(4)
 		l.Window = []int{0, 0, 40, 200, 2000}[g.Intn(5)]
 	})
+	// now and then a second, unrelated client lives in the same process (a bot
+	// on two networks): whatever it sends goes to its own server, and the two
+	// have nothing in common
+	var other *client.Conn
+	var otherLines []string
+	otherSent, otherDone := 0, true
+	if g.Pct(15) {
+		e.S.Count("probe.second-client-in-the-same-process")
+		other = NewClient(ClientOpts{Nick: "other", Server: "other.sim", Flood: true})
+		mainDial := e.OnDial
+		mainPlan := e.LinkPlan
+		e.LinkPlan = func(l *simnet.Link) {
+			if strings.HasPrefix(l.Addr, "other.sim") {
+				l.ChunkMode = g.Intn(4)
+				l.Window = []int{0, 7, 40}[g.Intn(3)]
+				return
+			}
+			mainPlan(l)
+		}
+		e.OnDial = func(l *simnet.Link) {
+			if !strings.HasPrefix(l.Addr, "other.sim") {
+				mainDial(l)
+				return
+			}
+			e.S.Spawn("other-server", func() {
+				if _, ok := Registration(l, time.Hour); !ok {
+					return
+				}
+				Welcome(l, "other")
+				for {
+					if e.S.Choose(3) == 0 {
+						simrt.Sleep(time.Duration(e.S.Choose(3)) * time.Millisecond)
+					}
+					ln, ok := l.RecvLine()
+					if !ok {
+						return
+					}
+					otherLines = append(otherLines, strings.TrimRight(ln, "\r\n"))
+				}
+			})
+		}
+	}
 	burstLeft := 0
 	s.pause = func() {
 		switch drain {
@@ -231,6 +273,23 @@ func sendOrder(e *Env) {
 	}
 	if !s.connect() {
 		return
+	}
+	if other != nil {
+		if err := other.Connect(); err != nil {
+			e.Violation("harness-connect", "the second client's Connect failed: %v", err)
+			return
+		}
+		otherDone = false
+		e.S.Spawn("other-sender", func() {
+			for k := 0; k < 60; k++ {
+				other.Raw(fmt.Sprintf("PRIVMSG #other :o%d %s", k, strings.Repeat("o", k%40)))
+				otherSent++
+				if e.S.Choose(3) == 0 {
+					simrt.Sleep(time.Duration(e.S.Choose(3)) * time.Millisecond)
+				}
+			}
+			otherDone = true
+		})
 	}
 	// ordinary inbound traffic while the senders run: server PINGs (answered by
 	// the client's own PONGs, which share the output queue) and chatter
@@ -388,6 +447,23 @@ func sendOrder(e *Env) {
 				return
 			}
 		}
+	}
+	if other != nil {
+		// the second client's lines reached its own server, whole and in order
+		simrt.BlockFor("send.main", "the second client's lines", time.Hour, func() bool { return otherDone && len(otherLines) >= otherSent })
+		e.Check()
+		for k := 0; k < otherSent; k++ {
+			want := fmt.Sprintf("PRIVMSG #other :o%d %s", k, strings.Repeat("o", k%40))
+			if k >= len(otherLines) || otherLines[k] != want {
+				got := "(nothing)"
+				if k < len(otherLines) {
+					got = otherLines[k]
+				}
+				e.Violation("corrupted", "a second client in the same process sent %q as its line %d; its server received %q", want, k, clip(got))
+				return
+			}
+		}
+		other.Close()
 	}
 	if !s.c.Connected() {
 		e.Violation("harness", "connection went down during a run without faults")
